@@ -186,7 +186,7 @@ def step_audit(pid, modules, required, thorough):
             f.write(f"#print axioms {n}\n")
     rc, out = sh(["lake", "env", "lean", af], cwd=LEAN, timeout=1200)
     axioms = {}
-    for m in re.finditer(r"'([^']+)' (does not depend on any axioms|depends on axioms: \[([^\]]*)\])", out):
+    for m in re.finditer(r"^'(\S+)' (does not depend on any axioms|depends on axioms: \[([^\]]*)\])", out, re.M):
         axioms[m.group(1)] = set() if m.group(3) is None else {a.strip() for a in m.group(3).split(",")}
     for n in names:
         if n not in axioms:
